@@ -35,6 +35,9 @@ def scenario(big: bool = False) -> Any:
     def fin(d: Dict[str, Any]) -> Dict[str, Any]:
         d["msgs"] = cm.sort_msgs(d["msgs"])
         for m in d["msgs"]:
+            if m["kind"] == "bad":
+                m["ack"] = None          # plain bytes from the broker, not an ackable wrapper
+                m["dur"] = 0.0
             if m["dur"] == "never":
                 m["dur"] = 0.0
                 m["out"] = "never"
@@ -55,7 +58,8 @@ def scenario(big: bool = False) -> Any:
         d.update({"ends": False, "ack_type": "when_saved", "horizon": HORIZON, "drain": 0.0})
         return d
 
-    msg = cm.message(kinds=("async",), outs=("ret", "ret", "ValueError"), acks=("sync", "sync", "async", "future", "deferred"),
+    # a few payloads the worker skips (malformed bytes delivered as plain bytes, incl. short ones such as b"-1" / b"")
+    msg = cm.message(kinds=("async", "async", "async", "async", "async", "bad"), outs=("ret", "ret", "ValueError"), acks=("sync", "sync", "async", "future", "deferred"),
                      durs=(0.0, 0.05, 0.3, 1.0, 4.0, "never"), at=cm.times(60), cleanups=(0, 0, 0, 0.2), timeouts=(None, None, None, 0.3))
     return st.fixed_dictionaries({
         "A": st.integers(1, 5 if big else 3), "P": st.integers(0, 4 if big else 2),
@@ -97,7 +101,7 @@ def run_case(sc: Dict[str, Any]) -> Outcome:
         tN = takes[N - 1][1][0]
         if s is None or takes[N - 1][0] < istop:
             s, s_kind = tN, "N"
-    taken = [e[2] for n, e in takes]
+    taken = [e[2] for n, e in takes if wh.is_good(specs[e[2]])]      # skipped payloads are no accepted work
     enter = {e[2]: e[0] for e in tr if e[1] == "enter"}
     fin = {e[2]: e[0] for e in tr if e[1] == "ack"}
     inf = float("inf")
